@@ -146,7 +146,9 @@ HCPcnone_seek(accrec_t *access_rec, int32 offset, int origin)
 
     info = (compinfo_t *)access_rec->special_info;
 
-    if (Hseek(info->aid, offset, origin) == FAIL)
+    (void)origin; /* HCPseek has resolved the origin: 'offset' is absolute */
+
+    if (Hseek(info->aid, offset, DF_START) == FAIL)
         HRETURN_ERROR(DFE_CSEEK, FAIL);
 
     return SUCCEED;
